@@ -106,8 +106,8 @@ CLAIMED["C09"] = dict(
          "pinned table. Tie: correspondence of run with each scan forced (base, _00, _04 via --wrap) and the public "
          "API, every run also executed with the base scan on a copy. Found and fixed F5, F4.",
     note="Trusted: Lean kernel + standard axioms; tools/gen_rolling_table.py; harness. The assembly scans are specified "
-         "by the base scan and checked differentially only. Model of the base scan is being updated to the unsigned "
-         "loop of fix 4824648 (theorems currently carry max_len < 2^31).",
+         "by the base scan and checked differentially only. One run per check uses max_len >= 2^31 "
+         "on an aliased 3 GiB window (monitors only; the model cannot expand it).",
     technique="Lean 4 proof over hand-written model + regenerated constant table + differential correspondence",
     engine="Rolling", ref="5 C09")
 
